@@ -254,7 +254,23 @@ func checkOutboundFlows(r *Result, prop string) []Violation {
 				}
 			} else {
 				if !rels[pid] {
-					out = append(out, viol(p, "pubrel-not-resent", fmt.Sprintf("conn %d: message %q (id %d) was past PUBREC; PUBREL was not resent after reconnect", rc.conn.Idx, m.payload, pid), q, "ver", verClass(rc.conn.Ver)))
+					// what did the broker answer to the PUBREC before the disconnect?
+					first := "never-written"
+					for _, c2 := range r.Ex.Conns {
+						if sessIDOfConn(c2) != rc.sess {
+							continue
+						}
+						for _, pr := range c2.Pkts {
+							if pr.Seq < rc.seq && pr.Seq > m.seq && pr.P.Type == refcodec.PUBREL && pr.P.PacketID == pid {
+								if pr.P.ReasonCode >= 0x80 {
+									first = "refused-0x92"
+								} else if first == "never-written" {
+									first = "sent"
+								}
+							}
+						}
+					}
+					out = append(out, viol(p, "pubrel-not-resent", fmt.Sprintf("conn %d: message %q (id %d) was past PUBREC (PUBREL before the disconnect: %s); PUBREL was not resent after reconnect", rc.conn.Idx, m.payload, pid, first), q, "ver", verClass(rc.conn.Ver), "pubrel", first))
 				}
 				if len(pubs[pid]) > 0 {
 					out = append(out, viol(p, "publish-resent-after-pubrec", fmt.Sprintf("conn %d: message %q (id %d) was past PUBREC but PUBLISH was sent again", rc.conn.Idx, m.payload, pid), pubs[pid][0].Seq))
@@ -431,6 +447,8 @@ func checkC11(r *Result) []Violation {
 		outstanding := map[uint16]bool{} // broker -> client, from the client's point of view
 		own := map[uint16]byte{}         // client -> broker QoS>0 publishes not yet completed
 		ownMax := 0
+		inboundQos2Done := 0 // PUBCOMP written by the broker: inbound QoS 2 exchanges completed on this connection
+		clientPubrecs := 0   // PUBREC sent by the client: outbound QoS 2 exchanges past their first half
 		for _, it := range items {
 			p := it.p
 			switch it.kind {
@@ -440,13 +458,21 @@ func checkC11(r *Result) []Violation {
 					if p.Qos > 0 {
 						outstanding[p.PacketID] = true
 						if len(outstanding) > rm {
+							// which known mechanism, if any, can account for the excess?
+							explained := "none"
+							if p.Dup {
+								explained = "resend" // in-flight messages are resent on reconnect regardless of the quota
+							} else if inboundQos2Done >= len(outstanding)-rm {
+								explained = "inbound-qos2" // each completed inbound QoS 2 exchange also raises the send quota
+							}
 							out = append(out, viol("C11", "outbound-exceeds-receive-maximum", fmt.Sprintf("conn %d: %d unacknowledged QoS>0 PUBLISH packets in transit, client Receive Maximum is %d", c.Idx, len(outstanding), rm), it.seq,
-								"rm", fmt.Sprint(rm), "dup", fmt.Sprint(p.Dup)))
+								"rm", fmt.Sprint(rm), "dup", fmt.Sprint(p.Dup), "explained", explained))
 						}
 					}
 				case refcodec.PUBACK:
 					delete(own, p.PacketID)
 				case refcodec.PUBCOMP:
+					inboundQos2Done++
 					delete(own, p.PacketID)
 				case refcodec.PUBREC:
 					if p.ReasonCode >= 0x80 {
@@ -454,8 +480,12 @@ func checkC11(r *Result) []Violation {
 					}
 				case refcodec.DISCONNECT:
 					if p.ReasonCode == 0x93 && ownMax <= serverRM {
+						explained := "none"
+						if clientPubrecs > 0 {
+							explained = "outbound-qos2" // each PUBREC the client sends for an outbound message lowers the receive quota
+						}
 						out = append(out, viol("C11", "spurious-receive-maximum-exceeded", fmt.Sprintf("conn %d: DISCONNECT 0x93 although the client never had more than %d unacknowledged QoS>0 publishes (server Receive Maximum %d)", c.Idx, ownMax, serverRM), it.seq,
-							"server_rm", fmt.Sprint(serverRM), "own_max", fmt.Sprint(ownMax)))
+							"server_rm", fmt.Sprint(serverRM), "own_max", fmt.Sprint(ownMax), "explained", explained))
 					}
 				}
 			case 1:
@@ -465,6 +495,8 @@ func checkC11(r *Result) []Violation {
 				case refcodec.PUBREC:
 					if p.ReasonCode >= 0x80 {
 						delete(outstanding, p.PacketID)
+					} else {
+						clientPubrecs++
 					}
 				}
 			case 2:
